@@ -210,7 +210,7 @@ def _replay(sub, jobs):
             cooked = []
             used_lca = False
             try:
-                with w.lock_tree_write():           # as cmd_merge does
+                with w.lock_write():                # as cmd_merge does
                     mg = M.Merger.from_revision_ids(w, ro, base=rb, other_branch=obranch)
                     mg.merge_type = types[mt]
                     used_lca = bool(mg._is_criss_cross and mg._lca_trees)
